@@ -16,13 +16,38 @@ def _write_if_changed(path, text):
     return False
 
 
-def run_all():
+def _read(path):
+    if os.path.exists(path):
+        with open(path) as f:
+            return f.read()
+    return None
+
+
+def run_all(validate=None):
+    """Regenerate every Generated/*.lean.  Never raises: a generator that meets a construct outside
+    its whitelist (or whose output does not compile, `validate(module) -> (rc, log)`) leaves its file
+    as it was and reports `error`; only the properties whose theorems import that file lose their
+    tie.  Constants.lean isolates per fact (see constants.py)."""
     from . import constants, lifecycle, checkgen
     out = {}
     gen = os.path.join(common.LEAN_DIR, 'Sparrow', 'Generated')
     for name, mod in (('Constants', constants), ('Lifecycle', lifecycle), ('Check', checkgen)):
-        text, facts = mod.generate()
-        changed = _write_if_changed(os.path.join(gen, name + '.lean'), text)
+        path = os.path.join(gen, name + '.lean')
+        try:
+            text, facts = mod.generate()
+        except Exception as e:
+            out[name] = {'changed': False, 'facts': None, 'error': repr(e)}
+            continue
+        old = _read(path)
+        changed = _write_if_changed(path, text)
         out[name] = {'changed': changed, 'facts': facts}
+        if changed and validate is not None:
+            rc, log = validate('Sparrow.Generated.' + name)
+            if rc != 0:
+                if old is not None:
+                    with open(path, 'w') as f:
+                        f.write(old)
+                out[name] = {'changed': False, 'facts': None,
+                             'error': 'generated %s.lean does not compile: %s' % (name, log[-600:])}
     _write_if_changed(os.path.join(gen, 'CheckParse.lean'), checkgen.PARSER_TEXT)
     return out
